@@ -1,6 +1,709 @@
-//! Harness for property C05 (stub: not built yet).
+//! C05 — concurrent writers serialize: nothing lost, nothing doubled, state converges.
+//!
+//! A case is a small scenario: index configuration, a sequential pre-population (`init …`), and a
+//! set of 2–4 calls (`op …`) issued concurrently on one `Collection` whose backend is a
+//! `SchedStore`.  Every backend call parks until the explorer releases it; the calls run on a
+//! manual single-threaded executor, so a schedule is a list of `s<task>` (call the operation) and
+//! `r<task>` (release its oldest parked backend call) choices.  All choice lists of a scenario are
+//! enumerated (bounded, then sampled) and each execution is
+//!
+//!  * replayed by the Lean model (`drv_c05` expands the choice list into a schedule of the model's
+//!    atomic actions with tokio's FIFO lock hand-over and runs `runSchedule`): return values and
+//!    the final dump (ids, documents, index contents, counters, extensions, what flush persisted)
+//!    must be equal — the correspondence;
+//!  * judged by an independent Wing–Gong search against a sequential BTreeMap reference — the
+//!    oracle (see `oracle.rs` for the exact reading of the property).
+//!
+//! Multi-threaded randomized runs (real parallelism, tokio multi-thread runtime) are checked by
+//! the same oracle and reported as *measured*.
+mod oracle;
+mod sched;
+
+use anda_db::{
+    collection::{Collection, CollectionConfig, CollectionMetadata},
+    database::{AndaDB, DBConfig},
+    error::DBError,
+    schema::{AndaDBSchema, Document, Fv},
+    storage::StorageConfig,
+};
+use object_store::{ObjectStore, memory::InMemory};
+use oracle::{D, OpK, Seq, fmt_doc};
+use sched::{CallInfo, Choice, Exec, SchedStore, TaskFut};
+use serde::{Deserialize, Serialize};
+use std::collections::BTreeMap;
+use std::sync::Arc;
+use vh_common::serde_json::json;
+use vh_common::*;
+
+#[derive(Debug, Clone, Serialize, Deserialize, AndaDBSchema)]
+struct Doc {
+    _id: u64,
+    #[unique]
+    k: u64,
+    #[unique]
+    u: u64,
+    v: u64,
+}
+
+const DB: &str = "d";
+const COLL: &str = "c";
+
+// ------------------------------------------------------------------------------------------
+// scenarios and their text form
+// ------------------------------------------------------------------------------------------
+
+#[derive(Clone, Debug, Default)]
+struct Scenario {
+    idx_k: bool,
+    idx_u: bool,
+    init: Vec<OpK>,
+    ops: Vec<OpK>,
+    sched: Option<Vec<Choice>>,
+}
+
+fn op_text(o: &OpK) -> String {
+    match o {
+        OpK::Add { k, u, v } => format!("add {k} {u} {v}"),
+        OpK::Upd { id, k, u, v } => {
+            let mut f = vec![];
+            if let Some(x) = k { f.push(format!("k={x}")) }
+            if let Some(x) = u { f.push(format!("u={x}")) }
+            if let Some(x) = v { f.push(format!("v={x}")) }
+            format!("upd {id} {}", if f.is_empty() { "-".to_string() } else { f.join(",") })
+        }
+        OpK::Rm { id } => format!("rm {id}"),
+        OpK::Get { id } => format!("get {id}"),
+        OpK::Flush => "flush".into(),
+        OpK::Ext { key, val } => format!("ext {key} {val}"),
+    }
+}
+
+fn parse_op(t: &[&str]) -> Option<OpK> {
+    Some(match t {
+        ["add", k, u, v] => OpK::Add { k: k.parse().ok()?, u: u.parse().ok()?, v: v.parse().ok()? },
+        ["upd", id, fields] => {
+            let (mut k, mut u, mut v) = (None, None, None);
+            if *fields != "-" {
+                for f in fields.split(',') {
+                    let (n, x) = f.split_once('=')?;
+                    let x: u64 = x.parse().ok()?;
+                    match n { "k" => k = Some(x), "u" => u = Some(x), "v" => v = Some(x), _ => return None }
+                }
+            }
+            OpK::Upd { id: id.parse().ok()?, k, u, v }
+        }
+        ["rm", id] => OpK::Rm { id: id.parse().ok()? },
+        ["get", id] => OpK::Get { id: id.parse().ok()? },
+        ["flush"] => OpK::Flush,
+        ["ext", key, val] => OpK::Ext { key: key.parse().ok()?, val: val.parse().ok()? },
+        _ => return None,
+    })
+}
+
+impl Scenario {
+    fn lines(&self) -> Vec<String> {
+        let mut l = vec![format!("conf {} {}", self.idx_k as u8, self.idx_u as u8)];
+        l.extend(self.init.iter().map(|o| format!("init {}", op_text(o))));
+        l.extend(self.ops.iter().map(|o| format!("op {}", op_text(o))));
+        if let Some(s) = &self.sched {
+            l.push(format!("sched {}", join(s.iter().map(|c| c.text()), ",")));
+        }
+        l
+    }
+    fn parse(lines: &[String]) -> Option<Scenario> {
+        let mut sc = Scenario::default();
+        for l in lines {
+            let t: Vec<&str> = l.split(' ').filter(|s| !s.is_empty()).collect();
+            match t.as_slice() {
+                ["conf", a, b] => { sc.idx_k = *a == "1"; sc.idx_u = *b == "1"; }
+                ["init", rest @ ..] => sc.init.push(parse_op(rest)?),
+                ["op", rest @ ..] => sc.ops.push(parse_op(rest)?),
+                ["sched", s] => sc.sched = Some(if *s == "-" { vec![] } else { s.split(',').map(Choice::parse).collect::<Option<Vec<_>>>()? }),
+                _ => return None,
+            }
+        }
+        Some(sc)
+    }
+}
+
+// ------------------------------------------------------------------------------------------
+// running the real code
+// ------------------------------------------------------------------------------------------
+
+fn err_text(e: &DBError) -> String {
+    match e {
+        DBError::NotFound { .. } => "err:notfound".into(),
+        DBError::AlreadyExists { .. } => "err:exists".into(),
+        DBError::Precondition { .. } => "err:precond".into(),
+        DBError::Schema { .. } => "err:invalid".into(),
+        e if e.collection_state().is_some() => "err:state".into(),
+        DBError::Generic { source, .. } if source.to_string().contains("No fields to update") => "err:invalid".into(),
+        DBError::Generic { source, .. } if source.to_string().contains("read-only") => "err:state".into(),
+        other => format!("err:other({})", format!("{other:?}").replace([' ', '\n'], "_").chars().take(120).collect::<String>()),
+    }
+}
+
+fn doc_of(d: &Document) -> D {
+    let g = |n: &str| match d.get_field(n) { Some(Fv::U64(x)) => *x, _ => u64::MAX };
+    (g("k"), g("u"), g("v"))
+}
+
+async fn apply(c: &Collection, op: &OpK) -> String {
+    match op {
+        OpK::Add { k, u, v } => match c.add_from(&Doc { _id: 0, k: *k, u: *u, v: *v }).await {
+            Ok(id) => format!("id={id}"),
+            Err(e) => err_text(&e),
+        },
+        OpK::Upd { id, k, u, v } => {
+            let mut f = BTreeMap::new();
+            if let Some(x) = k { f.insert("k".to_string(), Fv::U64(*x)); }
+            if let Some(x) = u { f.insert("u".to_string(), Fv::U64(*x)); }
+            if let Some(x) = v { f.insert("v".to_string(), Fv::U64(*x)); }
+            match c.update(*id, f).await {
+                Ok(d) => fmt_doc(&doc_of(&d)),
+                Err(e) => err_text(&e),
+            }
+        }
+        OpK::Rm { id } => match c.remove(*id).await {
+            Ok(Some(d)) => fmt_doc(&doc_of(&d)),
+            Ok(None) => "none".into(),
+            Err(e) => err_text(&e),
+        },
+        OpK::Get { id } => match c.get(*id).await {
+            Ok(d) => fmt_doc(&doc_of(&d)),
+            Err(e) => err_text(&e),
+        },
+        OpK::Flush => match c.flush(flush_now()).await {
+            Ok(b) => format!("flushed={b}"),
+            Err(e) => err_text(&e),
+        },
+        OpK::Ext { key, val } => match c.save_extension(format!("e{key}"), Fv::U64(*val)).await {
+            Ok(()) => "ok".into(),
+            Err(e) => err_text(&e),
+        },
+    }
+}
+
+/// `Storage::store_metadata` skips its PUT when neither the checkpoint nor the *millisecond* moved;
+/// a strictly increasing clock makes every flush take the same backend calls.
+fn flush_now() -> u64 {
+    static TICK: std::sync::atomic::AtomicU64 = std::sync::atomic::AtomicU64::new(0);
+    anda_db::unix_ms() + 1000 * TICK.fetch_add(1, std::sync::atomic::Ordering::SeqCst)
+}
+
+struct Live {
+    _db: AndaDB,
+    c: Arc<Collection>,
+    mem: Arc<InMemory>,
+    ctl: Arc<sched::Ctl>,
+    /// counters right after creation (the model starts from 0)
+    base_version: u64,
+}
+
+fn block_on<F: std::future::Future>(rt: &tokio::runtime::Runtime, f: F) -> F::Output {
+    rt.block_on(f)
+}
+
+fn setup(rt: &tokio::runtime::Runtime, sc: &Scenario) -> Result<Live, String> {
+    let mem = Arc::new(InMemory::new());
+    let (store, ctl) = SchedStore::wrap(mem.clone());
+    let (idx_k, idx_u) = (sc.idx_k, sc.idx_u);
+    block_on(rt, async {
+        let db = AndaDB::connect(
+            Arc::new(store),
+            DBConfig { name: DB.into(), description: String::new(), storage: StorageConfig { cache_max_capacity: 0, compress_level: 0, ..Default::default() }, lock: None },
+        )
+        .await
+        .map_err(|e| format!("connect: {e}"))?;
+        let c = db
+            .open_or_create_collection(Doc::schema().map_err(|e| format!("schema: {e}"))?, CollectionConfig { name: COLL.into(), description: String::new() }, async move |c| {
+                if idx_k { c.create_btree_index_nx(&["k"]).await?; }
+                if idx_u { c.create_btree_index_nx(&["u"]).await?; }
+                Ok(())
+            })
+            .await
+            .map_err(|e| format!("create: {e}"))?;
+        c.flush(flush_now()).await.map_err(|e| format!("settle flush: {e}"))?;
+        let base_version = c.stats().version;
+        Ok(Live { _db: db, c, mem, ctl, base_version })
+    })
+}
+
+/// class of a backend call, relative to the collection (what the model has an action for)
+fn classify(info: &CallInfo) -> &'static str {
+    let p = info.path.strip_prefix(&format!("{DB}/{COLL}/")).unwrap_or(&info.path);
+    if p.starts_with("data/") { "doc" }
+    else if p.starts_with("mutation_intents/") { "intent" }
+    else if p == "alloc_watermark.cbor" { "wm" }
+    else if p == "meta.cbor" { "meta" }
+    else if p == "ids.cbor" { "ids" }
+    else if p == "storage_meta.cbor" { "smeta" }
+    else if p.starts_with("btree_indexes/") { "index" }
+    else { "other" }
+}
+
+fn csv(ids: impl IntoIterator<Item = u64>) -> String {
+    let v: Vec<String> = ids.into_iter().map(|i| i.to_string()).collect();
+    if v.is_empty() { "-".into() } else { v.join(",") }
+}
+
+/// canonical final state: the part the oracle explains (`Seq::dump` format) and the extras only
+/// the model predicts
+fn dump(rt: &tokio::runtime::Runtime, live: &Live, sc: &Scenario) -> (String, String) {
+    let c = &live.c;
+    let ids = c.ids();
+    let mut docs = vec![];
+    for id in &ids {
+        let r = block_on(rt, c.get(*id));
+        docs.push(match r { Ok(d) => { let d = doc_of(&d); format!("{id}:{}/{}/{}", d.0, d.1, d.2) } Err(e) => format!("{id}:{}", err_text(&e)) });
+    }
+    let ix = |on: bool, name: &str| -> String {
+        if !on { return "off".into(); }
+        let Ok(view) = c.get_btree_index(&[name]) else { return "missing".into() };
+        let mut v: Vec<(u64, u64)> = vec![];
+        for key in view.keys(None, None) {
+            let kk = match &key { Fv::U64(x) => *x, _ => u64::MAX };
+            let ids: Vec<u64> = view.query_with(&key, |ids| Some(ids.clone())).unwrap_or_default();
+            for id in ids { v.push((kk, id)); }
+        }
+        v.sort();
+        if v.is_empty() { "-".into() } else { v.iter().map(|(k, i)| format!("{k}:{i}")).collect::<Vec<_>>().join(";") }
+    };
+    let st = c.stats();
+    let ext: Vec<String> = c.extensions_with(|m| m.iter().map(|(k, v)| format!("{}:{}", k.trim_start_matches('e'), match v { Fv::U64(x) => x.to_string(), _ => "?".into() })).collect());
+    let main = format!(
+        "ids={} docs={} idxK={} idxU={} counts={}/{}/{} ext={}",
+        csv(ids.iter().copied()),
+        if docs.is_empty() { "-".into() } else { docs.join(";") },
+        ix(sc.idx_k, "k"),
+        ix(sc.idx_u, "u"),
+        st.insert_count, st.update_count, st.delete_count,
+        if ext.is_empty() { "-".into() } else { ext.join(";") }
+    );
+    // objects actually present under data/
+    let objs: Vec<u64> = {
+        use futures::StreamExt;
+        let prefix = object_store::path::Path::from(format!("{DB}/{COLL}/data"));
+        let mut v: Vec<u64> = block_on(rt, async { live.mem.list(Some(&prefix)).filter_map(|m| async move { m.ok() }).collect::<Vec<_>>().await })
+            .into_iter()
+            .filter_map(|m| m.location.filename().and_then(|f| f.strip_suffix(".cbor")).and_then(|s| s.parse().ok()))
+            .collect();
+        v.sort();
+        v
+    };
+    let extra = format!("objs={} max={} ver={} poisoned={}", csv(objs), c.max_document_id(), st.version - live.base_version, c.is_poisoned());
+    (main, extra)
+}
+
+struct Outcome {
+    init_results: Vec<String>,
+    results: Vec<String>,
+    times: Vec<(u64, u64)>,
+    choices: Vec<Choice>,
+    /// the choices the model has an action for (`s<t>` / `r<t>`)
+    model_sched: Vec<String>,
+    classes: Vec<String>,
+    dump_main: String,
+    dump_extra: String,
+    deadlock: bool,
+    /// number of enabled choices at every point (for the DFS)
+    branching: Vec<usize>,
+}
+
+fn decode_ids(bytes: &[u8]) -> Option<Vec<u64>> {
+    let raw: Vec<u8> = cbor2::from_reader(bytes).ok()?;
+    let tm = croaring::Treemap::try_deserialize::<croaring::Portable>(&raw)?;
+    Some(tm.iter().collect())
+}
+
+fn decode_meta(bytes: &[u8]) -> Option<String> {
+    let m: CollectionMetadata = cbor2::from_reader(bytes).ok()?;
+    Some(format!("{}/{}/{}/{}", m.stats.num_documents, m.stats.insert_count, m.stats.update_count, m.stats.delete_count))
+}
+
+/// One execution. `choose(enabled)` picks the index of the next choice.
+fn execute(rt: &tokio::runtime::Runtime, sc: &Scenario, all_started_first: bool, choose: &mut dyn FnMut(&[Choice]) -> usize) -> Result<Outcome, String> {
+    let live = setup(rt, sc)?;
+    let mut init_results = vec![];
+    for op in &sc.init {
+        init_results.push(block_on(rt, apply(&live.c, op)));
+    }
+    let _enter = rt.enter();
+    live.ctl.set_park(true);
+    let futs: Vec<TaskFut> = sc
+        .ops
+        .iter()
+        .map(|op| {
+            let c = live.c.clone();
+            let op = op.clone();
+            Box::pin(tokio::task::unconstrained(async move { apply(&c, &op).await })) as TaskFut
+        })
+        .collect();
+    let mut ex = Exec::new(live.ctl.clone(), futs);
+    let mut branching = vec![];
+    let mut deadlock = false;
+    let mut steps = 0;
+    while !ex.all_done() {
+        let en = ex.enabled(all_started_first);
+        if en.is_empty() {
+            deadlock = true;
+            break;
+        }
+        let i = choose(&en);
+        if i >= en.len() {
+            return Err(format!("schedule names a disabled choice at step {steps} (enabled: {})", join(en.iter().map(|c| c.text()), ",")));
+        }
+        branching.push(en.len());
+        ex.take(en[i]);
+        steps += 1;
+        if steps > 2000 {
+            return Err("execution does not terminate".into());
+        }
+    }
+    live.ctl.set_park(false);
+    let times = ex.times();
+    let mut results: Vec<String> = ex.results().into_iter().map(|r| r.unwrap_or_else(|| "pending".into())).collect();
+    // what each flush persisted (payloads of its ids / metadata PUTs)
+    let puts = live.ctl.take_puts();
+    for (t, r) in results.iter_mut().enumerate() {
+        if matches!(sc.ops[t], OpK::Flush) && r.starts_with("flushed=") {
+            let ids = puts.iter().rev().find(|(pt, p, _)| *pt == t && p.ends_with(&format!("{COLL}/ids.cbor"))).map(|(_, _, b)| decode_ids(b).map(csv).unwrap_or_else(|| "undecodable".into()));
+            let meta = puts.iter().rev().find(|(pt, p, _)| *pt == t && p.ends_with(&format!("{COLL}/meta.cbor"))).map(|(_, _, b)| decode_meta(b).unwrap_or_else(|| "undecodable".into()));
+            *r = format!("{r};ids={};meta={}", ids.unwrap_or_else(|| "x".into()), meta.unwrap_or_else(|| "x".into()));
+        }
+    }
+    // the model's view of the choice list: drop the calls it has no action for; of a flush's index
+    // calls keep the last one of each run
+    let trace = ex.trace.clone();
+    let mut model_sched = vec![];
+    let mut classes = vec![];
+    for (i, (ch, info)) in trace.iter().enumerate() {
+        match (ch, info) {
+            (Choice::Start(_), _) => { model_sched.push(ch.text()); classes.push("start".to_string()); }
+            (Choice::Release(t), Some(info)) => {
+                let cl = classify(info);
+                classes.push(format!("{}{}", info.method, cl));
+                match cl {
+                    "index" => {
+                        let next_same = trace[i + 1..].iter().find_map(|(c2, i2)| match (c2, i2) { (Choice::Release(t2), Some(i2)) if t2 == t => Some(classify(i2)), _ => None });
+                        if next_same != Some("index") { model_sched.push(ch.text()); }
+                    }
+                    "other" => {}
+                    _ => model_sched.push(ch.text()),
+                }
+            }
+            _ => {}
+        }
+    }
+    let (dump_main, dump_extra) = dump(rt, &live, sc);
+    Ok(Outcome { init_results, results, times, choices: trace.iter().map(|(c, _)| *c).collect(), model_sched, classes, dump_main, dump_extra, deadlock, branching })
+}
+
+// ------------------------------------------------------------------------------------------
+// generation
+// ------------------------------------------------------------------------------------------
+
+fn gen_scenario(r: &mut Rng) -> Scenario {
+    let (idx_k, idx_u) = match r.below(8) { 0 => (false, false), 1..=4 => (true, false), _ => (true, true) };
+    let n_init = r.usize(4);
+    let mut init = vec![];
+    for i in 0..n_init {
+        // distinct keys so that the pre-population succeeds; small value space so that the
+        // concurrent calls collide with it
+        let v = r.below(3);
+        init.push(OpK::Add { k: 10 + i as u64, u: 20 + i as u64, v });
+    }
+    if n_init > 0 && r.chance(1, 6) { let id = 1 + r.below(n_init as u64); init.push(OpK::Rm { id }); }
+    if r.chance(2, 3) { init.push(OpK::Flush); }
+    let wide = r.chance(1, 4);
+    let n_ops = 2 + r.usize(if wide { 3 } else { 2 });
+    let hot = 1 + r.below(n_init.max(1) as u64); // the document most calls fight over
+    let key = |r: &mut Rng| if r.chance(1, 2) { 10 + r.below(4) } else { 30 + r.below(2) };
+    let ukey = |r: &mut Rng| if r.chance(1, 2) { 20 + r.below(4) } else { 40 + r.below(2) };
+    let mut ops = vec![];
+    for _ in 0..n_ops {
+        let id = if r.chance(3, 4) { hot } else { 1 + r.below(n_init as u64 + 2) };
+        ops.push(match r.below(20) {
+            0..=4 => { let (k, u, v) = (key(r), ukey(r), r.below(3)); OpK::Add { k, u, v } }
+            5..=10 => {
+                let mut k = None; let mut u = None; let mut v = None;
+                match r.below(6) { 0 => k = Some(key(r)), 1 => u = Some(ukey(r)), 2 | 3 => v = Some(r.below(5)), 4 => { k = Some(key(r)); v = Some(r.below(5)); } _ => { k = Some(key(r)); u = Some(ukey(r)); } }
+                OpK::Upd { id, k, u, v }
+            }
+            11..=14 => OpK::Rm { id },
+            15..=16 => OpK::Get { id },
+            17..=18 => OpK::Flush,
+            _ => { let (key, val) = (r.below(2), r.below(9)); OpK::Ext { key, val } }
+        });
+    }
+    Scenario { idx_k, idx_u, init, ops, sched: None }
+}
+
+// ------------------------------------------------------------------------------------------
+// checking one execution
+// ------------------------------------------------------------------------------------------
+
+struct Checked {
+    oracle_fail: Option<(String, String, String, String)>, // key, what, expected, observed
+    disagreement: Option<(String, String)>,               // model, impl
+    nontrivial: bool,
+}
+
+fn init_state(sc: &Scenario, init_results: &[String]) -> Result<Seq, (String, String)> {
+    let mut st = Seq { idx_k: sc.idx_k, idx_u: sc.idx_u, ..Default::default() };
+    let mut next = 0u64;
+    for (op, got) in sc.init.iter().zip(init_results) {
+        let want = st.apply_fresh(op, &mut next);
+        let got_cmp = if got.starts_with("flushed=") { "flushed" } else { got.as_str() };
+        if want != got_cmp {
+            return Err((want, got.clone()));
+        }
+    }
+    Ok(st)
+}
+
+fn check_execution(sc: &Scenario, out: &Outcome, model: &mut Option<ModelProc>) -> Checked {
+    let mut ck = Checked { oracle_fail: None, disagreement: None, nontrivial: false };
+    let sched_txt = join(out.choices.iter().map(|c| c.text()), ",");
+    if out.deadlock {
+        ck.oracle_fail = Some(("deadlock".into(), "calls are blocked forever under this schedule".into(), "all calls return".into(), format!("results {:?} after {sched_txt}", out.results)));
+        return ck;
+    }
+    if let Some(r) = out.results.iter().find(|r| r.starts_with("err:other") || r.starts_with("err:precond") || r.starts_with("err:state")) {
+        ck.oracle_fail = Some(("unexpected-error".into(), "a call failed with an error no sequential execution produces".into(), "ok / notfound / exists".into(), r.clone()));
+        return ck;
+    }
+    match init_state(sc, &out.init_results) {
+        Err((want, got)) => {
+            ck.oracle_fail = Some(("sequential-init".into(), "the sequential pre-population already differs from the reference".into(), want, got));
+            return ck;
+        }
+        Ok(init) => {
+            let v = oracle::check(&init, &sc.ops, &out.results, &out.times, &out.dump_main);
+            if !v.ok {
+                ck.oracle_fail = Some((v.key, v.what, v.expected, format!("results [{}] final {} {} under {sched_txt}", out.results.join(" | "), out.dump_main, out.dump_extra)));
+            }
+            // objects == ids, handle not poisoned
+            let ids = out.dump_main.split(' ').next().unwrap_or("").trim_start_matches("ids=").to_string();
+            let objs = out.dump_extra.split(' ').next().unwrap_or("").trim_start_matches("objs=").to_string();
+            if ck.oracle_fail.is_none() && (ids != objs || !out.dump_extra.ends_with("poisoned=false")) {
+                ck.oracle_fail = Some(("objects-vs-ids".into(), "document objects and the id bitmap differ after all calls returned (or the handle is poisoned)".into(), format!("objs={ids} poisoned=false"), out.dump_extra.clone()));
+            }
+        }
+    }
+    ck.nontrivial = out.results.iter().any(|r| r.starts_with("id=") || r.starts_with("doc=") || r.starts_with("flushed=true"));
+    if let Some(m) = model.as_mut() {
+        let mut lines = sc.lines();
+        lines.retain(|l| !l.starts_with("sched "));
+        lines.push(format!("sched {}", if out.model_sched.is_empty() { "-".to_string() } else { out.model_sched.join(",") }));
+        let ans = m.ask(&format!("run {}", lines.join(" | ")));
+        let imp = format!("init [{}] res [{}] {} {}", out.init_results.join(" | "), out.results.join(" | "), out.dump_main, out.dump_extra);
+        if ans != imp {
+            ck.disagreement = Some((ans, imp));
+        }
+    }
+    ck
+}
+
+// ------------------------------------------------------------------------------------------
+// exploring the schedules of one scenario
+// ------------------------------------------------------------------------------------------
+
+struct Explored {
+    executions: u64,
+    exhaustive: bool,
+}
+
+#[allow(clippy::too_many_arguments)]
+fn explore(rt: &tokio::runtime::Runtime, name: &str, sc: &Scenario, cap: u64, seed: u64, model: &mut Option<ModelProc>, rep: &mut Report, debug: bool) -> Explored {
+    let mut executions = 0u64;
+    let mut exhaustive = false;
+    let handle = |out: &Outcome, rep: &mut Report, model: &mut Option<ModelProc>| {
+        let ck = check_execution(sc, out, model);
+        let mut ops = sc.lines();
+        ops.retain(|l| !l.starts_with("sched "));
+        ops.push(format!("sched {}", join(out.choices.iter().map(|c| c.text()), ",")));
+        if debug {
+            eprintln!("{name}: {} => [{}] {} {} classes {}", ops.join(" | "), out.results.join(" | "), out.dump_main, out.dump_extra, out.classes.join(","));
+        }
+        rep.case(&ops.join("|"), ck.nontrivial);
+        if model.is_some() { rep.model_compared += 1; }
+        for r in &out.results { rep.hit(&format!("result:{}", r.split(['=', '(']).next().unwrap_or("?"))); }
+        if let Some((key, what, exp, obs)) = ck.oracle_fail {
+            rep.oracle_failure(&key, &what, &ops, &exp, &obs);
+        }
+        if let Some((m, i)) = ck.disagreement {
+            rep.disagreement("results / final state of one schedule", &ops, &m, &i);
+        }
+    };
+    if let Some(s) = &sc.sched {
+        let mut pos = 0;
+        let s = s.clone();
+        let mut err = None;
+        let r = execute(rt, sc, false, &mut |en| {
+            let want = s.get(pos).copied();
+            pos += 1;
+            match want.and_then(|w| en.iter().position(|c| *c == w)) { Some(i) => i, None => { err = Some(pos); usize::MAX } }
+        });
+        match r {
+            Ok(out) => { handle(&out, rep, model); executions += 1; }
+            Err(e) => { rep.hit("case_error"); rep.notes.push(format!("{name}: {e}")); }
+        }
+        return Explored { executions, exhaustive: true };
+    }
+    // depth-first enumeration of choice lists (stateless: every execution starts from scratch)
+    for all_started_first in [true, false] {
+        let mut prefix: Vec<usize> = vec![];
+        let budget = if all_started_first { cap * 2 / 3 } else { cap / 3 };
+        let mut done = 0u64;
+        let mut complete = false;
+        loop {
+            let mut pos = 0;
+            let pre = prefix.clone();
+            let r = execute(rt, sc, all_started_first, &mut |_en| { let i = pre.get(pos).copied().unwrap_or(0); pos += 1; i });
+            let out = match r { Ok(o) => o, Err(e) => { rep.hit("case_error"); rep.notes.push(format!("{name}: {e}")); break; } };
+            handle(&out, rep, model);
+            executions += 1;
+            done += 1;
+            // next prefix
+            let mut path: Vec<usize> = (0..out.branching.len()).map(|i| prefix.get(i).copied().unwrap_or(0)).collect();
+            loop {
+                match path.pop() {
+                    None => { complete = true; break; }
+                    Some(c) => {
+                        let n = out.branching[path.len()];
+                        if c + 1 < n { path.push(c + 1); break; }
+                    }
+                }
+            }
+            if complete { break; }
+            prefix = path;
+            if done >= budget { break; }
+        }
+        if all_started_first { exhaustive = complete; } else { exhaustive &= complete; }
+        if !complete {
+            // random walks for diversity beyond the DFS corner
+            let extra = budget / 2;
+            for w in 0..extra {
+                let mut r = Rng::for_case(seed ^ 0x5c05, w + if all_started_first { 0 } else { 1 << 32 });
+                if let Ok(out) = execute(rt, sc, all_started_first, &mut |en| r.usize(en.len())) {
+                    handle(&out, rep, model);
+                    executions += 1;
+                }
+            }
+        }
+    }
+    Explored { executions, exhaustive }
+}
+
+// ------------------------------------------------------------------------------------------
+// multi-threaded randomized runs (measured)
+// ------------------------------------------------------------------------------------------
+
+fn multithread_runs(args: &Args, rep: &mut Report) {
+    let runs = args.budget(60, 1500);
+    let rt = tokio::runtime::Builder::new_multi_thread().worker_threads(4).enable_all().build().unwrap();
+    let setup_rt = tokio::runtime::Builder::new_current_thread().enable_all().build().unwrap();
+    let mut failures = 0u64;
+    let mut overlapping = 0u64;
+    for i in 0..runs {
+        let mut r = Rng::for_case(args.seed ^ 0x77, i);
+        let mut sc = gen_scenario(&mut r);
+        // larger operation count
+        let more = gen_scenario(&mut r);
+        sc.ops.extend(more.ops);
+        sc.ops.truncate(7);
+        let Ok(live) = setup(&setup_rt, &sc) else { continue };
+        let mut init_results = vec![];
+        for op in &sc.init { init_results.push(setup_rt.block_on(apply(&live.c, op))); }
+        let t0 = std::time::Instant::now();
+        let handles: Vec<_> = sc
+            .ops
+            .iter()
+            .map(|op| {
+                let c = live.c.clone();
+                let op = op.clone();
+                rt.spawn(async move {
+                    let s = t0.elapsed().as_nanos() as u64;
+                    let r = apply(&c, &op).await;
+                    (r, s, t0.elapsed().as_nanos() as u64)
+                })
+            })
+            .collect();
+        let mut results = vec![];
+        let mut times = vec![];
+        for h in handles {
+            match rt.block_on(h) {
+                Ok((r, s, e)) => { results.push(r); times.push((s, e)); }
+                Err(_) => { results.push("panic".into()); times.push((0, u64::MAX)); }
+            }
+        }
+        for (t, r) in results.iter_mut().enumerate() {
+            if matches!(sc.ops[t], OpK::Flush) && r.starts_with("flushed=") { *r = "flushed".into(); }
+        }
+        if (0..times.len()).any(|a| (0..times.len()).any(|b| a != b && times[a].0 < times[b].1 && times[b].0 < times[a].1)) { overlapping += 1; }
+        let (dump_main, dump_extra) = dump(&setup_rt, &live, &sc);
+        let Ok(init) = init_state(&sc, &init_results) else { continue };
+        let v = oracle::check(&init, &sc.ops, &results, &times, &dump_main);
+        if !v.ok {
+            failures += 1;
+            let mut ops = sc.lines();
+            ops.push("# multi-threaded run (not replayable by schedule)".into());
+            rep.oracle_failure(&format!("mt:{}", v.key), &v.what, &ops, &v.expected, &format!("results [{}] final {dump_main} {dump_extra}", results.join(" | ")));
+        }
+    }
+    rep.measured.insert("multithread_runs".into(), json!({"runs": runs, "ops_per_run": "4..7", "worker_threads": 4, "runs_with_overlapping_calls": overlapping, "oracle_failures": failures,
+        "note": "real parallelism on tokio's multi-thread runtime, checked by the same Wing-Gong oracle; measured, not proved"}));
+}
+
+// ------------------------------------------------------------------------------------------
+
 fn main() {
-    let a = vh_common::Args::parse();
-    let r = vh_common::Report::new("C05", &a, "stub");
-    r.write(&a);
+    let args = Args::parse();
+    let mut rep = Report::new(
+        "C05",
+        &args,
+        "case = one execution: scenario (index configuration 0/1/2 unique indexes, 0..3 pre-populated documents, 2..4 concurrent calls \
+         out of add/update/remove/get/flush/save_extension, mostly on one hot document) under one schedule (list of start/release choices \
+         over the parked backend calls); distinct = distinct (scenario, schedule); non-trivial = at least one call succeeded with an effect \
+         (an id, a document, or a flush that persisted)",
+    );
+    let debug = args.extra.contains_key("debug");
+    let rt = tokio::runtime::Builder::new_current_thread().enable_all().build().unwrap();
+    let mut model = ModelProc::from_args(&args);
+
+    let mut cases: Vec<(String, Scenario)> = vec![];
+    if let Some(p) = &args.replay {
+        match Scenario::parse(&read_replay(p)) { Some(sc) => cases.push(("replay".into(), sc)), None => rep.notes.push("replay file does not parse".into()) }
+    } else {
+        if let Some(dir) = &args.corpus {
+            for (name, lines) in read_corpus(dir) {
+                match Scenario::parse(&lines) { Some(sc) => cases.push((name, sc)), None => rep.notes.push(format!("corpus file {name} does not parse")) }
+            }
+        }
+        let n = args.budget(60, 1500);
+        for i in 0..n {
+            let mut r = Rng::for_case(args.seed, i);
+            cases.push((format!("gen{i}"), gen_scenario(&mut r)));
+        }
+    }
+    let cap = args.extra.get("cap").and_then(|s| s.parse().ok()).unwrap_or(args.budget(60, 600));
+    let mut total = 0u64;
+    let mut exhaustive_scenarios = 0u64;
+    let t0 = std::time::Instant::now();
+    for (name, sc) in &cases {
+        let r = std::panic::catch_unwind(std::panic::AssertUnwindSafe(|| explore(&rt, name, sc, cap, args.seed, &mut model, &mut rep, debug)));
+        match r {
+            Ok(e) => { total += e.executions; if e.exhaustive { exhaustive_scenarios += 1; } }
+            Err(_) => rep.oracle_failure("panic", "the implementation panicked", &sc.lines(), "no panic", "panic"),
+        }
+        for o in &sc.ops { rep.hit(&format!("op:{}", op_text(o).split(' ').next().unwrap_or("?"))); }
+        rep.hit(&format!("uniq:{}", sc.idx_k as u8 + sc.idx_u as u8));
+        if rep.samples.len() < 4 { rep.sample(json!({"case": name, "ops": sc.lines()})); }
+    }
+    rep.notes.push(format!("{} scenarios, {} executions, {} scenarios enumerated exhaustively (others: DFS prefix + random walks), {:.1}s", cases.len(), total, exhaustive_scenarios, t0.elapsed().as_secs_f64()));
+    if args.replay.is_none() {
+        multithread_runs(&args, &mut rep);
+    }
+    rep.write(&args);
 }
